@@ -132,8 +132,8 @@ Definition rt_required_numbers (fields : list field) : list N :=
    - the edition is one the compiler supports;
    - labels are one of the three;
    - a map-entry message is only the type of its own repeated, non-extension, TYPE_MESSAGE field;
-   - LEGACY_REQUIRED is never in force for a repeated field or an extension (it can only be set on a
-     singular non-extension field: validateFieldFeatures, validateFile, option targets);
+   - LEGACY_REQUIRED is never in force for a repeated field, an extension, a oneof member or a member of a map entry (it can only be
+     set on a singular non-extension field outside a oneof: validateFieldFeatures, validateFile, option targets);
    - the fields of a map-entry message are plain fields (no extensions, no groups): map entries are synthetic;
      an extension is never a member of a oneof;
    - proto3_optional only on optional-label fields of proto3 files. *)
@@ -142,7 +142,7 @@ Definition wf_field (f : field) : bool :=
   && (is_editions (f_edition f) || chain_empty (f_chain f))
   && ((f_label f =? LABEL_OPTIONAL) || (f_label f =? LABEL_REQUIRED) || (f_label f =? LABEL_REPEATED))
   && (negb (f_msg_mapentry f) || ((f_type f =? TYPE_MESSAGE) && (f_label f =? LABEL_REPEATED) && negb (f_is_ext f)))
-  && (negb ((f_label f =? LABEL_REPEATED) || f_is_ext f) || negb (f_resolve f FieldPresence =? FP_LEGACY_REQUIRED))
+  && (negb ((f_label f =? LABEL_REPEATED) || f_is_ext f || f_has_oneof f || f_parent_mapentry f) || negb (f_resolve f FieldPresence =? FP_LEGACY_REQUIRED))
   && ((negb (f_parent_mapentry f) || (negb (f_is_ext f) && negb (f_type f =? TYPE_GROUP))) && negb (f_is_ext f && f_has_oneof f))
   && (negb (f_p3opt f) || ((f_label f =? LABEL_OPTIONAL) && (f_edition f =? ED_PROTO3))).
 
